@@ -451,18 +451,23 @@ def _install_fault(fault):
     return lambda: setattr(election, '_run_type_assignment_on_h5ad_worker', orig)
 
 
-def _reap():
-    """Wait until every descendant process has exited."""
+def _reap(limit=30.0):
+    """Wait until every descendant process has exited (bounded: a helper process that lives as
+    long as the interpreter must not hang the check).  -> True iff none is left."""
     import multiprocessing
     for p in multiprocessing.active_children():
-        p.join(60)
-    while True:
+        p.join(limit)
+    t0 = time.time()
+    while time.time() - t0 < limit:
         try:
-            pid, _ = os.waitpid(-1, 0)
+            pid, _ = os.waitpid(-1, os.WNOHANG)
         except ChildProcessError:
-            break
+            return True
         except OSError:
-            break
+            return True
+        if pid == 0:
+            time.sleep(0.01)
+    return False
 
 
 def _run_stage(job):
@@ -537,7 +542,7 @@ def child_main(jobfile):
         finally:
             _mark('end', job['label'])
         rec['at_return'] = snapshot(job['roots'])
-        _reap()
+        rec['all_descendants_exited'] = _reap()
         _mark('settled', job['label'])
         if undo:
             undo()
